@@ -17,7 +17,11 @@ func main() {
 		"depth 2-3), each built twice through the Go constructors. Laws checked directly on the implementation: reflexivity on the separately " +
 		"built copy and on the re-parsed text; Equals => mutual acceptance (all pairs); transitivity (ALL triples of the pool); monotonicity of " +
 		"every covariant one-hole context over every accepted pair; widening of sizes/ranges; Any top; Variant member; Optional. " +
-		"A case is non-trivial when its premise holds with neither side Any/Unit (e.g. a triple A>=B>=C); distinct = distinct recipes"
+		"A case is non-trivial when its premise holds with neither side Any/Unit (e.g. a triple A>=B>=C); distinct = distinct recipes. " +
+		"Outside the model fragment (direct check only), in the same pool: Data/RichData and user aliases (constructor route and recursive ones through " +
+		"parser + AddTypes) in every member position and in two-position Variants (also below an alias), Iterable over entry tuples against Structs with " +
+		"required / Optional[k] / implicitly optional keys and Hashes, Enums that repeat a value (directly or through the case-insensitive flag), random " +
+		"types over all of it"
 	pcore.Do(func(c px.Context) {
 		if cfg.Replay != "" {
 			replay(c, cfg, res)
@@ -64,6 +68,13 @@ func contexts() []context {
 		{"Type[_]", func(x *lat.Spec) *lat.Spec { return lat.W("Type", x) }},
 		{"Sensitive[_]", func(x *lat.Spec) *lat.Spec { return lat.W("Sensitive", x) }},
 		{"Iterable[_]", func(x *lat.Spec) *lat.Spec { return lat.W("Iterable", x) }},
+		// compositions of two of the positions above
+		{"Iterable[Tuple[String,_]]", func(x *lat.Spec) *lat.Spec { return lat.W("Iterable", lat.Tup(S, x)) }},
+		{"Iterable[Tuple[_,Integer]]", func(x *lat.Spec) *lat.Spec { return lat.W("Iterable", lat.Tup(x, I)) }},
+		{"Array[Variant[_,Boolean]]", func(x *lat.Spec) *lat.Spec { return lat.Arr(lat.Var(x, lat.Bln(-1)), 0, lat.Max) }},
+		{"Optional[Struct[{Optional[m]=>_}]]", func(x *lat.Spec) *lat.Spec {
+			return lat.W("Optional", lat.Struct(lat.Member{Name: "m", Kind: 1, T: x}))
+		}},
 	}
 }
 
@@ -132,15 +143,60 @@ func build(s *lat.Spec) (t px.Type) {
 	return
 }
 
+// negativeSizeProbes: a size range may have negative bounds (the creators only require min <= max). The test
+// "max == 0: only the empty collection, element types do not matter" of Array/Hash/Tuple.IsAssignable then breaks
+// transitivity (a sub-range of [-1,0] can have max < 0), and String[-1] is a sized String that no longer accepts
+// what String accepts. Every violation carries the narrow tag of its open finding.
+func negativeSizeProbes(res *lib.Result) {
+	I, S := lat.Int(0, 9), lat.A("String")
+	chains := [][3]*lat.Spec{
+		{lat.Arr(I, -1, 5), lat.Arr(S, -1, 0), lat.Arr(S, -1, -1)},
+		{lat.Hsh(S, I, -1, 5), lat.Hsh(I, S, -1, 0), lat.Hsh(I, S, -1, -1)},
+		{lat.TupSz(-1, 5, I), lat.Arr(S, -1, 0), lat.Arr(S, -1, -1)},
+		{lat.Arr(I, -2, 5), lat.TupSz(-2, 0, S), lat.TupSz(-2, -1, S)},
+		{lat.Coll(-1, 5), lat.Arr(S, -1, 0), lat.Arr(S, -1, -1)}, // holds: Collection compares sizes only
+	}
+	for _, ch := range chains {
+		a, b, c := build(ch[0]), build(ch[1]), build(ch[2])
+		if a == nil || b == nil || c == nil {
+			continue
+		}
+		res.Evaluations++
+		res.Count("trans.negative-size-probe")
+		if asg(a, b) && asg(b, c) && !asg(a, c) {
+			res.Violate(lib.Violation{Clause: "transitive", What: fmt.Sprintf("%s accepts %s, which accepts %s, but the first does not accept the last", a, b, c),
+				Input: map[string]interface{}{"kind": "trans", "a": ch[0], "b": ch[1], "c": ch[2]}, Tags: []string{"trans-negative-collection-size"}})
+		}
+	}
+	w := lat.StrSz(-1, lat.Max)
+	for _, bs := range []*lat.Spec{S, lat.Pat("a"), lat.Enum(false)} {
+		a, wt, b := build(S), build(w), build(bs)
+		if a == nil || wt == nil || b == nil {
+			continue
+		}
+		res.Evaluations++
+		res.Count("widen.negative-size-probe")
+		if asg(a, b) && !asg(wt, b) {
+			res.Violate(lib.Violation{Clause: "widen", What: fmt.Sprintf("%s accepts %s but the wider %s does not", a, b, wt),
+				Input: map[string]interface{}{"kind": "widen", "a": S, "w": w, "b": bs}, Tags: []string{"widen-negative-string-size"}})
+		}
+	}
+}
+
 func trivial(u *lat.Universe, i int) bool { k := u.Dec[i].K; return k == "Any" || k == "Unit" }
 
 func run(c px.Context, cfg *lib.Config, res *lib.Result) {
 	rng := lib.NewRng(cfg.Seed)
-	nRandom, coqN, monoBudget := 250, 2400, 60000
+	nRandom, coqN, monoBudget, nRandomX := 250, 2400, 60000, 200
 	if cfg.Thorough() {
-		nRandom, coqN, monoBudget = 1200, 12000, 600000
+		nRandom, coqN, monoBudget, nRandomX = 1200, 12000, 600000, 1000
 	}
-	u := lat.NewUniverse(rng, nRandom, 1)
+	// the families outside the Rocq model (direct check only): aliases in member positions, user aliases (also recursive
+	// ones), Iterable over entry tuples against Structs with required / Optional[k] / implicitly optional keys, Enums that
+	// repeat a value (directly or through the case-insensitive flag); a separate generator, so that the random types of
+	// the model fragment stay what they were
+	xt := lat.ExtTypes(lib.NewRng(cfg.Seed^0x5eed03), nRandomX, cfg.Thorough())
+	u := lat.NewUniverseWith(rng, nRandom, 1, xt, nil)
 	// Unit is "two-way assignable by definition" (every type accepts it and it accepts every type), so no
 	// order law can hold through it (Integer >= Unit >= String): types that contain Unit are left out.
 	u.Drop(func(i int) bool { return lat.Contains(u.Dec[i], "Unit") })
@@ -156,7 +212,7 @@ func run(c px.Context, cfg *lib.Config, res *lib.Result) {
 	for a := 0; a < n; a++ {
 		res.Evaluations++
 		if !u.Asg[a][a] {
-			res.Violate(lib.Violation{Clause: "reflexive-copy", What: fmt.Sprintf("%s does not accept a separately constructed copy of itself", u.Text[a]),
+			res.Violate(lib.Violation{Clause: "reflexive-copy", What: fmt.Sprintf("%s does not accept a separately constructed copy of itself%s", u.Text[a], lat.Legend(u.Specs[a])),
 				Input: map[string]interface{}{"kind": "refl", "a": spec(a)}, Tags: []string{"refl:" + u.Dec[a].K}})
 		}
 		var p px.Type
@@ -192,7 +248,7 @@ func run(c px.Context, cfg *lib.Config, res *lib.Result) {
 					res.Nontrivial(fmt.Sprintf("eq/%d/%d", a, b))
 				}
 				if !u.Asg[a][b] || !u.Asg[b][a] {
-					res.Violate(lib.Violation{Clause: "equal-accept", What: fmt.Sprintf("%s equals %s but they do not accept each other (%v, %v)", u.Text[a], u.Text[b], u.Asg[a][b], u.Asg[b][a]),
+					res.Violate(lib.Violation{Clause: "equal-accept", What: fmt.Sprintf("%s equals %s but they do not accept each other (%v, %v)%s", u.Text[a], u.Text[b], u.Asg[a][b], u.Asg[b][a], lat.Legend(u.Specs[a], u.Specs[b])),
 						Input: map[string]interface{}{"kind": "eq", "a": spec(a), "b": spec(b)}, Tags: []string{"eq:" + u.Dec[a].K + "/" + u.Dec[b].K}})
 				}
 			}
@@ -226,19 +282,24 @@ func run(c px.Context, cfg *lib.Config, res *lib.Result) {
 				}
 				if !u.Asg[a][cc] {
 					tags := []string{"trans:" + u.Dec[a].K + "<-" + u.Dec[b].K + "<-" + u.Dec[cc].K}
-					if lat.Contains(u.Dec[a], "Struct") && lat.Contains(u.Dec[b], "Hash") {
+					// (the recipe is looked at as well: the decoded structure does not show what is below an alias)
+					has := func(i int, kind string) bool { return lat.Contains(u.Dec[i], kind) || lat.SpecContains(u.Specs[i], kind) }
+					if has(a, "Struct") && has(b, "Hash") {
 						tags = append(tags, "trans-through-struct-accepts-hash-rule")
 					}
-					if lat.Contains(u.Dec[b], "Struct") && lat.Contains(u.Dec[cc], "Hash") {
+					if has(b, "Struct") && has(cc, "Hash") {
 						tags = append(tags, "trans-through-struct-accepts-hash-rule")
 					}
-					res.Violate(lib.Violation{Clause: "transitive", What: fmt.Sprintf("%s accepts %s, which accepts %s, but the first does not accept the last", u.Text[a], u.Text[b], u.Text[cc]),
+					res.Violate(lib.Violation{Clause: "transitive", What: fmt.Sprintf("%s accepts %s, which accepts %s, but the first does not accept the last%s", u.Text[a], u.Text[b], u.Text[cc], lat.Legend(u.Specs[a], u.Specs[b], u.Specs[cc])),
 						Input: map[string]interface{}{"kind": "trans", "a": spec(a), "b": spec(b), "c": spec(cc)}, Tags: tags})
 				}
 			}
 			res.Evaluations += n - len(accepts[b])
 		}
 	}
+	// ---- sizes with a negative bound: they parse (Array[String,-1,-1]) and the pool has none, so a few fixed
+	// chains probe that input class directly (open findings trans-negative-collection-size, widen-negative-string-size)
+	negativeSizeProbes(res)
 	// ---- Any is top, Variant member, Optional
 	anyT := build(lat.A("Any"))
 	undefT := build(lat.A("Undef"))
@@ -370,7 +431,7 @@ func run(c px.Context, cfg *lib.Config, res *lib.Result) {
 }
 
 func replay(c px.Context, cfg *lib.Config, res *lib.Result) {
-	for _, in := range lib.ReplayInputs(cfg.Replay) {
+	for _, in := range lat.ReplayInputs(cfg.Replay) {
 		var x struct {
 			Kind string    `json:"kind"`
 			Law  string    `json:"law"`
